@@ -147,7 +147,7 @@ def register(claim, na):
           "(R-TRIPLE, R-ROLE, R-ROLEAGREE) - i.e. '|p1-p2| = d' and 'points lie on the respective primitives' hold RELATIVE TO "
           "THE CALLEES; every loop of the package is CAP/STRUCT (R-HANG: 'never hang' is fully decided for this package); calls "
           "into explicitly typed helpers are accepted (R-EAGER); local-frame evaluation is frame consistent and results are "
-          "world-frame points (R-FRAME); returned distances and points have length degree 1 (R-RETDEGREE); the two halves of the line-to-box case analysis are mirror images under the axis swap (R-MIRROR). Does not decide membership of arithmetically "
+          "world-frame points (R-FRAME); returned distances and points have length degree 1 (R-RETDEGREE); the two halves of the line-to-box case analysis are mirror images under the axis swap (R-MIRROR), all 8 sign patterns of the direction reach the case function that moves along exactly the positive axes and clamps the zero axes (R-CASEDISPATCH), and _case_no_zeros hands _box_face the axis that won all pairwise comparisons (R-TOURNAMENT), the branches of _box_face mirror / re-use each other and each of its 9 leaves uses one offset per axis in delta, squared distance and stored box point (R-BOXFACE). Does not decide membership of arithmetically "
           "constructed leaf points within 1e-9 L, NaN-freedom, or 'never raises' beyond signature conformance.", "DESIGN.md §4 C10")
     claim("C11", "feature-enumeration completeness rules + convexity-table rule for the clamp idiom + role-flow (E6) + degree "
                  "inference (E3)",
@@ -156,7 +156,7 @@ def register(claim, na):
           "dist <= epsilon (R-FEATURES); the 'infinite line, then clamp and re-query the end point' idiom is used only against "
           "convex primitives (R-CLAMPCONVEX: known finding line_segment_to_circle); best-of blocks adopt distance and points "
           "together (R-TRIPLE); closed forms are dimensionally homogeneous (R-DEGREE: exposed the line_to_circle transcription "
-          "error, fixed); the symmetric case tree of _line_to_box._case_0 stays symmetric (R-MIRROR). Does not decide optimality itself, nor the 20-round alternating projection of disk_to_disk.",
+          "error, fixed); the case analysis of _line_to_box stays symmetric, exhaustive and consistently dispatched (R-MIRROR, R-CASEDISPATCH, R-TOURNAMENT, R-BOXFACE). Does not decide optimality itself, nor the 20-round alternating projection of disk_to_disk.",
           "DESIGN.md §4 C11")
     na("C17", "volumes, positivity, partition and potentials are numerical facts about generated vertex data over continuous "
               "parameters; the only static part (combinatorics of literal tables) is too small a share of the statement to "
